@@ -211,8 +211,13 @@ def justify(site, func, dialect_keys, cfg=None):
         # reads of an items()-loop variable's mapping are safe
         loop = enclosing(node, ast.For)
         while loop is not None:
-            if isinstance(loop.iter, ast.Call) and call_attr(loop.iter) in ("items", "keys") and norm(loop.iter.func.value) == base_src:
-                tgt = loop.target.elts[0] if isinstance(loop.target, ast.Tuple) else loop.target
+            it_ = loop.iter
+            while isinstance(it_, ast.Call) and isinstance(it_.func, ast.Name) and it_.func.id in ("list", "tuple", "sorted", "iter", "reversed") and len(it_.args) >= 1:
+                it_ = it_.args[0]        # a snapshot / reordering of the same keys
+            pairs = isinstance(it_, ast.Call) and call_attr(it_) == "items" and norm(it_.func.value) == base_src
+            keys = (isinstance(it_, ast.Call) and call_attr(it_) == "keys" and norm(it_.func.value) == base_src) or norm(it_) == base_src
+            if pairs or keys:
+                tgt = loop.target.elts[0] if (pairs and isinstance(loop.target, ast.Tuple)) else loop.target
                 if norm(tgt) == key_src:
                     return "J4 (key from iteration over the mapping)"
             loop = enclosing(loop, ast.For)
